@@ -215,7 +215,7 @@ func visitInstr(fr *frame, instr ssa.Instruction) continuation {
 		default:
 			var res []value
 			for _, r := range instr.Results {
-				res = append(res, fr.get(r))
+				res = append(res, fr.lateLoad(instr, r))
 			}
 			fr.result = tuple(res)
 		}
@@ -645,4 +645,45 @@ func (fr *frame) where() string {
 		sb = append(sb, fmt.Sprintf("  %s %s\n", f.fn.String(), pos)...)
 	}
 	return string(sb)
+}
+
+// lateLoad: `return v, f()` where v is a variable shared with other goroutines/closures — the
+// language leaves the order of reading v and calling f unspecified; the gc compiler reads an
+// escaping variable after the calls, go/ssa before them. The repository relies on gc's order
+// (downloader.stream: `return typ, g.Wait()`), so a result that is a plain load of a heap variable
+// made in the returning block before a call is re-read at the return, as gc does.
+func (fr *frame) lateLoad(ret *ssa.Return, r ssa.Value) value {
+	u, ok := r.(*ssa.UnOp)
+	if !ok || u.Op != token.MUL || u.Block() != ret.Block() {
+		return fr.get(r)
+	}
+	switch x := u.X.(type) {
+	case *ssa.Alloc:
+		if !x.Heap {
+			return fr.get(r)
+		}
+	case *ssa.FreeVar:
+	default:
+		return fr.get(r)
+	}
+	callAfter := false
+	seen := false
+	for _, in := range ret.Block().Instrs {
+		if in == ssa.Instruction(u) {
+			seen = true
+			continue
+		}
+		if seen {
+			if _, isCall := in.(*ssa.Call); isCall {
+				callAfter = true
+			}
+		}
+	}
+	if !callAfter {
+		return fr.get(r)
+	}
+	if p, ok := fr.get(u.X).(*value); ok && p != nil {
+		return load(mustDeref(u.X.Type()), p)
+	}
+	return fr.get(r)
 }
